@@ -199,6 +199,8 @@ pub fn replay(v: &Value) {
     let engine = v["engine"].as_str().unwrap_or("");
     match engine {
         "kvvmc" => crate::kvvmc::replay(v),
+        #[cfg(vls_verif)]
+        "concur" => crate::concur::replay(v),
         _ => {
             let model = v["replay"]["model"].as_str().unwrap_or("");
             if model.starts_with("chanfsm") {
